@@ -19,7 +19,8 @@ RULE = ("(A) metamorphic isolation: generated multi-member problems are transcri
         "state_vector for the default discretisation, ControlTreeMixin (k in {1,2,3}, uneven branching "
         "times, forecasts with ties / duplicates / coinciding prefixes, 2-6 members) and PlanningMixin, "
         "compared with ControlTree.v and judged by 'share iff same branch'. non-trivial = >= 3 members "
-        "and >= 2 branching times, or a perturbation of a parameter equal to 0 / 1; distinct = abstracted shapes")
+        "and >= 2 branching times, or a perturbation of a parameter equal to 0 / 1; distinct = abstracted shapes"
+        " Also: controls on their own grid under tree / planning with a Jacobian-structure check (a row that reads member m's state reads controls only through member m's entries), and CSV ensemble folders where only some members have an initial_state.csv.")
 MODELLED = ("control_tree_mixin.py discretize_controls / branch() / discretize_control; planning_mixin.py; "
             "default discretize_control(s) and the per-member data flow of transcribe()")
 NOT_MODELLED = ("np.int16 control index arrays (with NumPy 2 an index above 32767 raises OverflowError instead of "
